@@ -62,6 +62,9 @@ def run(ctx):
         "stix2.registry::class_for_type", "stix2.registration::_register_object", "stix2.registration::_register_marking",
         "stix2.registration::_register_observable", "stix2.registration::_register_extension",
         "stix2.registration::_validate_props", "stix2.properties::_validate_type"})
+    # ... and the version in force at a parse entry point is the caller's: content is asked for its version only when none
+    # was named (otherwise a 2.1-only registration is used inside a 2.0 context whenever the content carries 'spec_version')
+    ctx.do_as(C14.rule_detect, {"C14.detect": "C19.version-scope"})
     from .hidden_state import rule_no_hidden_state
     ctx.do(rule_no_hidden_state, "C19.history-independence")
     from .pitfalls import rule_loops_not_cut_short
